@@ -141,6 +141,62 @@ def copy_attrs(cls, func):
     return attrs, problems
 
 
+def _root_attr(node):
+    """'a' for a store target rooted at self.a / self._a (any depth of
+    attribute / subscript below it); 'self[]' for self[...]."""
+    n = node
+    while isinstance(n, (ast.Attribute, ast.Subscript)):
+        if isinstance(n, ast.Subscript) and isinstance(n.value, ast.Name) \
+                and n.value.id == 'self':
+            return 'self[]'
+        at = _self_attr(n)
+        if at is not None:
+            return at.lstrip('_')
+        n = n.value
+    return None
+
+
+def stmt_writes(cls, stmt, seen=None):
+    """Attribute roots of self that executing `stmt` may modify: direct
+    stores / deletes below self.a, and transitively through property
+    setters (self.a = v), self[k] = v / del self[k] and self.m(...)."""
+    seen = set() if seen is None else seen
+    out = set()
+
+    def via(func):
+        if func is None or func.fq in seen:
+            return
+        seen.add(func.fq)
+        for st in func.body:
+            out.update(stmt_writes(cls, st, seen))
+    for n in (walk_no_nested(stmt) if not isinstance(
+            stmt, (ast.FunctionDef, ast.AsyncFunctionDef)) else ()):
+        targets = []
+        if isinstance(n, ast.Assign):
+            targets = n.targets
+        elif isinstance(n, (ast.AugAssign, ast.AnnAssign)):
+            targets = [n.target]
+        elif isinstance(n, ast.Delete):
+            targets = n.targets
+        for t in targets:
+            for e in (t.elts if isinstance(t, (ast.Tuple, ast.List))
+                      else [t]):
+                r = _root_attr(e)
+                if r == 'self[]':
+                    via(cls.find_method('__delitem__' if isinstance(
+                        n, ast.Delete) else '__setitem__'))
+                elif r is not None:
+                    out.add(r)
+                    if _self_attr(e) is not None and \
+                            not _self_attr(e).startswith('_'):
+                        via(cls.find_setter(_self_attr(e)))
+        if isinstance(n, ast.Call) and isinstance(n.func, ast.Attribute) \
+                and isinstance(n.func.value, ast.Name) and \
+                n.func.value.id == 'self':
+            via(cls.find_method(n.func.attr))
+    return out
+
+
 def repr_attrs(func):
     out = set()
     for n in walk_no_nested(func.node):
@@ -179,6 +235,8 @@ def run(repo, rep, tier):
     r5 = rep.rule('C05.R5', 'copy(): container setters build a new '
                   'container')
     r6 = rep.rule('C05.R6', 'pickling iterates the concrete __slots__')
+    r7 = rep.rule('C05.R7', 'copy(): no later step of __init__/copy() '
+                  'rewrites an attribute already handed to the new object')
 
     classes = [(OBJ, c) for c in CIM_CLASSES] + [(TYP, 'CIMDateTime')]
     for path, cname in classes:
@@ -333,6 +391,57 @@ def run(repo, rep, tier):
                                         'setter stores the caller\'s object '
                                         'itself: copy() shares the mutable '
                                         '%r with the original' % a)
+            # R7: transfer without interference
+            init = cls.find_method('__init__')
+            if cp is not None and init is not None and cpt:
+                r7.sites += 1
+                r7.functions.update([cp.fq, init.fq])
+                # order in which __init__ stores its parameters
+                steps = []     # (attr or None, writes, where)
+                for st in init.body:
+                    a = None
+                    if isinstance(st, ast.Assign) and len(st.targets) == 1 \
+                            and _self_attr(st.targets[0]) is not None and \
+                            isinstance(st.value, ast.Name):
+                        a = _self_attr(st.targets[0]).lstrip('_')
+                    steps.append((a, stmt_writes(cls, st),
+                                  '__init__: ' + norm(st, 50), st))
+                handed = {a for a, how in cpt.items()
+                          if how in ('positional', 'keyword')}
+                seq = [(a if a in handed else None, w, wh, st)
+                       for a, w, wh, st in steps]
+                # then the assignments copy() makes on the new object
+                for st in cp.body:
+                    if isinstance(st, ast.Assign) and len(st.targets) == 1 \
+                            and isinstance(st.targets[0], ast.Attribute) and \
+                            isinstance(st.targets[0].value, ast.Name) and \
+                            st.targets[0].value.id != 'self' and \
+                            _self_attr(st.value) is not None:
+                        a = st.targets[0].attr
+                        w = {a.lstrip('_')}
+                        stt = cls.find_setter(a)
+                        if stt is not None:
+                            for x in stt.body:
+                                w |= stmt_writes(cls, x)
+                        handed.add(a.lstrip('_'))
+                        seq.append((a.lstrip('_'), w, 'copy(): ' +
+                                    norm(st, 50), st))
+                for i, (a, w, wh, st) in enumerate(seq):
+                    if a is None or a not in handed:
+                        continue
+                    later = [(wh2, st2) for a2, w2, wh2, st2 in seq[i + 1:]
+                             if a in w2 and a2 != a]
+                    ok = not later
+                    r7.ob(ok, '%s.%s:transfer' % (cname, a),
+                          {'class': cname, 'attr': a, 'stored_by': wh,
+                           'later_writers': [x for x, _ in later]})
+                    if not ok:
+                        rep.finding(
+                            r7, cp.qualname, a, 'interference', path,
+                            later[0][1].lineno,
+                            'copy() hands self.%s to the new object (%s) but '
+                            'a later step may rewrite it (%s): the copy can '
+                            'differ from the original' % (a, wh, later[0][0]))
             # copy() itself must construct a new object of the class
             if cp is not None:
                 newobj = any(isinstance(n, ast.Call) and
